@@ -1,6 +1,7 @@
 package scen
 
 import (
+	"bytes"
 	sflate "compress/flate"
 	sgzip "compress/gzip"
 	szlib "compress/zlib"
@@ -315,6 +316,7 @@ func RunW(t *kern.Task, log *kern.Log, sc *WScen, fast bool) (rec *WRec) {
 	}
 	rec.Guarded = g != nil
 	closed, errSeen := false, false
+	var callerBuf []byte
 	for i, op := range sc.Ops {
 		res := WOpRes{K: op.K, Seg: len(rec.Segs) - 1, CallsBefore: seg.Sink.Calls, FailedBefore: seg.Sink.Failed, ClosedBefore: closed, ErrBefore: errSeen}
 		tid := 0
@@ -341,7 +343,16 @@ func RunW(t *kern.Task, log *kern.Log, sc *WScen, fast bool) (rec *WRec) {
 				chunk := data[pos : pos+n]
 				pos += n
 				res.N = n
-				res.Ret, res.Err = w.Write(chunk)
+				// the caller reuses its buffer: hand over a private copy and overwrite
+				// it as soon as Write returns (io.Writer: "must not retain p")
+				callerBuf = append(callerBuf[:0], chunk...)
+				res.Ret, res.Err = w.Write(callerBuf)
+				if !bytes.Equal(callerBuf, chunk) {
+					panic("Write modified the caller's slice")
+				}
+				for i := range callerBuf {
+					callerBuf[i] = 0xEE
+				}
 				if res.Ret > 0 && res.Ret <= n {
 					seg.Model = append(seg.Model, chunk[:res.Ret]...)
 				}
